@@ -246,6 +246,30 @@ fn judge_tolmap(case: &Case, l: &mut Local) {
     for w in bps.windows(2) {
         qs.push(0.5 * (w[0] + w[1]));
     }
+    // a table whose breakpoints come from the evenly spaced constructors, with the ends given in either order
+    if bps.len() >= 2 {
+        let (lo, hi, n) = (bps[0], bps[bps.len() - 1] + 1.0, bps.len() + 1);
+        let zs: Vec<Tolerance> = (0..n).map(|i| Tolerance::symmetrical(0.0, 1.0 + i as f64)).collect();
+        for (what, d) in [("linear, ascending ends", DiscreteDomain::linear(lo, hi, n)), ("linear, descending ends", DiscreteDomain::linear(hi, lo, n)), ("linear_space, descending ends", engeom::common::linear_space(hi, lo, n))] {
+            l.eval();
+            let vals = d.values().to_vec();
+            let step = (hi - lo) / (n - 1) as f64;
+            let mut ok = vals.len() == n && vals.windows(2).all(|w| w[0] < w[1]) && (vals[0] - lo).abs() <= 1e-12 && (vals[n - 1] - hi).abs() <= 1e-12;
+            if ok {
+                match guarded(|| DiscreteDomainTolMap::try_new(d.clone(), zs.clone()).map_err(|e| e.to_string())) {
+                    Ok(Ok(m)) => {
+                        for k in 0..n {
+                            let x = lo + (k as f64 + 0.4) * step;
+                            let want = (k).min(n - 1);
+                            ok &= guarded(|| m.get(x)).ok().flatten().map(|t| t.upper == zs[want].upper).unwrap_or(false);
+                        }
+                    }
+                    _ => ok = false,
+                }
+            }
+            l.check("a table built from evenly spaced breakpoints returns the zone of the greatest breakpoint not above x", "", ok, mk, || format!("{}: breakpoints {:?}", what, vals));
+        }
+    }
     // the constant map is the table with a single zone: the same zone everywhere, also below any start
     {
         let cm = engeom::metrology::ConstantTolMap::new(zones[0]);
@@ -693,7 +717,19 @@ pub fn run(tier: Tier) -> i32 {
     // engine cross-validation: the same machine explored by stateright (an independent explicit-state
     // checker driving the same real code) must find the same number of unique states and no violation
     let bfs_clean = cx.acc.viol.is_empty();
-    let (sr_states, sr_depth, sr_ok) = crate::sr::devset_model_check(dev_depth, n_threads().min(8));
+    let (mut sr_states, mut sr_depth, mut sr_ok) = crate::sr::devset_model_check(dev_depth, n_threads().min(8));
+    // stateright's parallel search has been seen to stop a few hundred states short on a heavily loaded machine
+    // (its workers give up when the shared queue is momentarily empty); a count that disagrees is therefore
+    // taken again with a single worker, which is deterministic, before anything is concluded from it
+    let mut sr_mode = "parallel";
+    if bfs_clean && sr_ok && sr_states as u64 != dev_expanded {
+        let again = crate::sr::devset_model_check(dev_depth, 1);
+        sr_states = again.0;
+        sr_depth = again.1;
+        sr_ok = again.2;
+        sr_mode = "single worker after a parallel run that disagreed";
+    }
+    cx.extra.insert("stateright_search".into(), json!(sr_mode));
     cx.extra.insert("stateright_unique_states".into(), json!(sr_states));
     cx.extra.insert("stateright_max_depth".into(), json!(sr_depth));
     cx.extra.insert("stateright_properties_hold".into(), json!(sr_ok));
